@@ -126,6 +126,8 @@ class FakeProc:
 
     def join(self, timeout=None):
         self.joined += 1
+        if self._popen is not None and self._popen.returncode is None and self.world.join_hook is not None:
+            self.world.join_hook(self)       # the caller blocks until this process has exited
 
     def is_alive(self):
         return self._popen is not None and self._popen.returncode is None
@@ -177,7 +179,10 @@ class FakeConnEnd:
         return self.q.popleft()
 
     def poll(self, timeout=0):
+        if not self.q and timeout and self.idle_hook is not None:
+            self.idle_hook(timeout)          # the caller would sleep in poll(): the rest of the world moves
         return bool(self.q)
+    idle_hook = None
 
     def close(self):
         self.closed = True
@@ -294,6 +299,8 @@ class World:
         self.pool = None
         self.out_times = collections.deque()   # enqueue instant of every pending worker message
         self.drain_bound = None     # assumption A-drain: no message stays unread this long
+        self.join_hook = None
+        self.guard_waits = 0
 
     # -- OS side -------------------------------------------------------------
     def proc_by_pid(self, pid):
@@ -385,8 +392,15 @@ class World:
             raise Prune()
         req = p._inqueue.q.popleft()
         if req is None:
-            trace('worker', w.pid, 'got sentinel -> exit 0')
-            w.die(0)
+            # sentinel: the loop is left through SystemExit; its `finally` still waits until the parent has
+            # consumed this worker's results (or 300 x 0.1 s)
+            ctr = p._on_ready_counters.get(w.pid)
+            if ctr is None or ctr.value >= w.completed:
+                trace('worker', w.pid, 'got sentinel -> exit 0')
+                w.die(0)
+            else:
+                trace('worker', w.pid, 'got sentinel, waits for its results to be consumed')
+                w.state = 'leaving'
             return None
         type_, args_ = req
         assert type_ == bp.TASK
@@ -408,6 +422,9 @@ class World:
             result = (True, fun(*args, **kwargs))
         except Exception:
             result = (False, ExceptionInfo())
+        if getattr(self, 'pickle_results', False):
+            import pickle
+            result = pickle.loads(pickle.dumps(result))      # the result crosses the pipe by value
         self.emit((bp.READY, (job, i, result, p._inqueue._writer.fileno())))
         w.cur = None
         w.completed += 1
@@ -433,6 +450,17 @@ class World:
             w.die(bp.EX_RECYCLE)
             return 'guard'
         raise Prune()
+
+    def w_leave(self, w):
+        """a worker that got the sentinel leaves once its results were consumed; if they never are
+        credited to it, it waits out the 30 s guard (recorded)"""
+        if w.state != 'leaving' or w.exitcode is not None:
+            raise Prune()
+        ctr = self.pool._on_ready_counters.get(w.pid)
+        if ctr is not None and ctr.value < w.completed:
+            self.guard_waits += 1
+            trace('worker', w.pid, 'waited out the 30 s consumption guard')
+        w.die(0)
 
     def w_exit(self, w, status):
         """worker w dies (mid-task when busy, between jobs when idle)"""
@@ -555,3 +583,25 @@ def int_timeout(handle):
     if isinstance(t, float):
         assert t == int(t)
         handle._lost_worker_timeout = int(t)
+
+
+def _drain_until_sentinel(self):
+    """the result handler's main loop: handles messages until it reads its sentinel (then finish_at_shutdown takes over)"""
+    p = self.pool
+    n = 0
+    while p._outqueue.q:
+        if p._outqueue.q[0] is None:
+            p._outqueue.q.popleft()
+            if self.out_times:
+                self.out_times.popleft()
+            return True
+        if self.out_times:
+            self.out_times.popleft()
+        p.handle_result_event()
+        n += 1
+        if n > 100:
+            raise AssertionError('result queue does not drain')
+    return False
+
+
+World.drain_until_sentinel = _drain_until_sentinel
